@@ -15,6 +15,8 @@ open CaddyModel.C01
 #print axioms default_logger_untouched_before_run
 #print axioms default_logger_after_rejected
 #print axioms default_logger_after_validate
+#print axioms step_default_logger
+#print axioms history_default_logger
 #print axioms history_atomic
 #print axioms step_atomic
 #print axioms stop_leaves_nothing
